@@ -222,3 +222,88 @@ Proof.
   destruct (N.iter k ticks_acc (t0, P, r, [])) as [[[t P'] r'] o]. unfold track in H. cbn [snd].
   destruct H as [_ [_ H]]. destruct ((k =? 0)%N || (t0 + Z.of_N k <? ndl n)); tauto.
 Qed.
+
+(* ------------------------------------------------------------------------------------ *)
+(* closed form for a periodic timer: with due time D > t0 and period p > 0 it is delivered
+   during the ticks D, D+p, D+2p, ... and at no other tick *)
+
+Definition pcount (t0 D p : Z) (k : N) : Z :=
+  if t0 + Z.of_N k <? D then 0 else (t0 + Z.of_N k - D) / p + 1.
+
+Lemma pcount_bounds t0 D p k : 0 < p -> t0 < D -> 0 <= pcount t0 D p k /\ t0 + Z.of_N k < D + pcount t0 D p k * p.
+Proof.
+  intros Hp Hd. unfold pcount. destruct (Z.ltb_spec (t0 + Z.of_N k) D); [lia|].
+  pose proof (Z.div_mod (t0 + Z.of_N k - D) p ltac:(lia)). pose proof (Z.mod_pos_bound (t0 + Z.of_N k - D) p Hp).
+  assert (0 <= (t0 + Z.of_N k - D) / p) by (apply Z.div_pos; lia). nia.
+Qed.
+
+Lemma pcount_succ t0 D p k : 0 < p -> t0 < D ->
+  pcount t0 D p (N.succ k) =
+  if D + pcount t0 D p k * p =? t0 + Z.of_N k + 1 then pcount t0 D p k + 1 else pcount t0 D p k.
+Proof.
+  intros Hp Hd. pose proof (pcount_bounds t0 D p k Hp Hd) as [Hb1 Hb2]. unfold pcount in *.
+  rewrite N2Z.inj_succ.
+  destruct (Z.ltb_spec (t0 + Z.of_N k) D) as [H1|H1]; destruct (Z.ltb_spec (t0 + Z.succ (Z.of_N k)) D) as [H2|H2]; try lia.
+  - destruct (Z.eqb_spec (D + 0 * p) (t0 + Z.of_N k + 1)); [lia|reflexivity].
+  - destruct (Z.eqb_spec (D + 0 * p) (t0 + Z.of_N k + 1)); [|lia].
+    replace (t0 + Z.succ (Z.of_N k) - D) with 0 by lia. rewrite Z.div_0_l by lia. reflexivity.
+  - set (a := t0 + Z.of_N k - D) in *. replace (t0 + Z.succ (Z.of_N k) - D) with (a + 1) by lia.
+    pose proof (Z.div_mod a p ltac:(lia)). pose proof (Z.mod_pos_bound a p Hp).
+    pose proof (Z.div_mod (a + 1) p ltac:(lia)). pose proof (Z.mod_pos_bound (a + 1) p Hp).
+    destruct (Z.eqb_spec (D + (a / p + 1) * p) (t0 + Z.of_N k + 1)); nia.
+Qed.
+
+Definition ptrack (t0 : Z) (n : node) (k : N) (acc : Z * list node * list Z * list deliv) : Prop :=
+  let '(t, P, r, o) := acc in
+  t = t0 + Z.of_N k /\ NoDup (map nid P) /\
+  In (mkNode (nid n) (ndl n + pcount t0 (ndl n) (nper n) k * nper n) (nper n)) P /\
+  Z.of_nat (count_occ Z.eq_dec (map fst o) (nid n)) = pcount t0 (ndl n) (nper n) k.
+
+Lemma ptrack_step t0 n k acc :
+  0 < nper n -> t0 < ndl n -> ptrack t0 n k acc -> ptrack t0 n (N.succ k) (ticks_acc acc).
+Proof.
+  intros Hper Hd. destruct acc as [[[t P] r] o]. unfold ptrack, ticks_acc. intros [Ht [Hnd [Hin Hc]]].
+  pose proof (pcount_bounds t0 (ndl n) (nper n) k Hper Hd) as [Hb1 Hb2].
+  set (c := pcount t0 (ndl n) (nper n) k) in *.
+  set (m := mkNode (nid n) (ndl n + c * nper n) (nper n)) in *.
+  pose proof (spec_tick_nodup (t + 1) P r Hnd) as Hnd'.
+  pose proof (count_deliv_ids (t + 1) P r (nid n) Hnd) as Hcnt.
+  pose proof (spec_tick_pending (t + 1) P r) as Hpend.
+  destruct (spec_tick (t + 1) P r) as [[P' r'] o'] eqn:E. cbn [fst snd] in *.
+  split; [lia|]. split; [exact Hnd'|].
+  rewrite map_app, count_occ_app, Nat2Z.inj_add.
+  set (ca := count_occ Z.eq_dec (map fst o) (nid n)) in *.
+  set (cb := count_occ Z.eq_dec (map fst o') (nid n)) in *.
+  set (ex := existsb (fun x => (nid x =? nid n) && is_due (t + 1) x) P) in *.
+  rewrite (pcount_succ t0 (ndl n) (nper n) k Hper Hd). fold c.
+  destruct (Z.eqb_spec (ndl n + c * nper n) (t0 + Z.of_N k + 1)) as [Edue|Endue].
+  - (* due at this tick: delivered and re-armed one period later *)
+    assert (Hex : ex = true).
+    { apply existsb_exists. exists m. split; [exact Hin|]. cbn [nid m]. rewrite Z.eqb_refl. unfold is_due. cbn [ndl m]. lia. }
+    rewrite Hex in Hcnt. split.
+    + apply Hpend. right. exists m. split; [exact Hin|]. split; [cbn [ndl m]; lia|]. split; [unfold periodic; cbn [nper m]; lia|].
+      unfold rearm. cbn [nid ndl nper m]. f_equal. lia.
+    + change (Z.of_nat ca + Z.of_nat cb = c + 1). lia.
+  - assert (Hex : ex = false).
+    { apply not_true_is_false. intros Hex. apply existsb_exists in Hex. destruct Hex as [x [Hx Hb]].
+      apply andb_true_iff in Hb. destruct Hb as [Hi Hdx]. apply Z.eqb_eq in Hi.
+      assert (x = m) by (apply (nodup_ids_inj P); assumption). subst x. unfold is_due in Hdx. cbn [ndl m] in Hdx. lia. }
+    rewrite Hex in Hcnt. split.
+    + apply Hpend. left. split; [exact Hin|]. cbn [ndl m]. lia.
+    + change (Z.of_nat ca + Z.of_nat cb = c). lia.
+Qed.
+
+Theorem spec_periodic_exact t0 n k P r :
+  0 < nper n -> t0 < ndl n -> NoDup (map nid P) -> In n P ->
+  Z.of_nat (count_occ Z.eq_dec (map fst (snd (N.iter k ticks_acc (t0, P, r, [])))) (nid n)) =
+  pcount t0 (ndl n) (nper n) k.
+Proof.
+  intros Hper Hd Hnd Hin.
+  assert (H : ptrack t0 n k (N.iter k ticks_acc (t0, P, r, []))).
+  { induction k as [|k IH] using N.peano_ind.
+    - cbn. split; [lia|]. split; [exact Hnd|]. unfold pcount. cbn.
+      destruct (Z.ltb_spec (t0 + 0) (ndl n)); [|lia]. split; [|reflexivity].
+      replace (ndl n + 0 * nper n) with (ndl n) by lia. destruct n; exact Hin.
+    - rewrite N.iter_succ. apply ptrack_step; assumption. }
+  destruct (N.iter k ticks_acc (t0, P, r, [])) as [[[t P'] r'] o]. unfold ptrack in H. cbn [snd]. tauto.
+Qed.
